@@ -107,6 +107,28 @@ def case_moveaxis(rng: Any, ctx: Ctx, index: int) -> None:
         LOG.violation('C13', 'C13.out_structure', 'MoveAxisOperator.out_structure', 'not numpy.moveaxis shapes', src=src, dst=dst, shapes=shapes)
     xb = apply_monitored(op, rng)
     guarded('C13.roundtrip', lambda: roundtrip_and_matrix(op, xb, 'MoveAxisOperator', changes))
+    def pair() -> None:
+        # a second move-axis written with the other sign convention (w.r.t. the first leaf's rank): composing and
+        # reducing the pair may give the identity only if the pair really is one on every leaf
+        r0 = len(shapes[0])
+        flip = lambda a: a - r0 if a >= 0 else a + r0  # noqa: E731
+        src2, dst2 = tuple(flip(a) for a in op.destination), tuple(flip(a) for a in op.source)
+        try:
+            for l in dense.leaves(op.out_structure()):
+                np.moveaxis(np.zeros(l.shape), src2, dst2)
+        except Exception:  # noqa: BLE001
+            return
+        left = MoveAxisOperator(src2, dst2, in_structure=op.out_structure())
+        comp = left @ op
+        red = comp.reduce()
+        LOG.evaluated('C13.pair')
+        LOG.count('C13.pair', type(red).__name__)
+        if dense.size_of(s) <= 40:
+            m1, m2 = dense.matrix(comp), dense.matrix(red)
+            if m1.shape != m2.shape or not np.array_equal(m1, m2) or not dense.struct_eq_loose(red.out_structure(), comp.out_structure()):
+                LOG.violation('C13', 'C13.pair', f'MoveAxis@MoveAxis.reduce/{type(red).__name__}',
+                              'reducing a pair of move-axis operators changed the map', left=dense.describe(left), right=dense.describe(op))
+    guarded('C13.pair', pair)
     inv = op.I
     LOG.evaluated('C13.roundtrip')
     if not (type(inv).__name__ == 'MoveAxisOperator' and dense.struct_eq(inv.in_structure(), op.out_structure())):
